@@ -9,6 +9,12 @@ UPPER_CLAUSES = {"noWaitBefore", "noWaitAfter", "promptCancel", "terminated"}   
 def run(pid, tier, seed):
     t0 = time.time()
     d = outdir(pid)
+    part = collect(pid, tier, seed, d, None)
+    return fam_batch.finish(pid, tier, seed, d, t0, [("timing", part)])
+
+
+def collect(pid, tier, seed, d, binp):
+    """Timed runs judged for C20 (waits), C02 (fallback only after the budget) or C05 (cancellation from outside during a wait)."""
     states = transitions = 0
     mc_info = []
     combos = [(3, 2, 8), (2, 1, 6)] if tier == "quick" else [(3, 2, 9), (4, 2, 11), (3, 0, 5), (2, 3, 9)]
@@ -20,7 +26,7 @@ def run(pid, tier, seed):
         states += st["distinct"]; transitions += st["generated"]
         mc_info.append({"spec": "FlytRetryTimed", "N": n, "W": w, "MaxTime": mt, "distinct_states": st["distinct"], "states_generated": st["generated"], "wall_s": round(wall, 1)})
         log("mc timed retry loop N=%d W=%d: states=%d (%.1fs)" % (n, w, st["distinct"], wall))
-    binp = build_harness(d)
+    binp = binp or build_harness(d)
     hist = os.path.join(d, "timing_hist.ndjson")
     run_harness(binp, ["timing", "--out", hist, "--seed", str(seed), "--count", "10" if tier == "quick" else "100"])
     fails, _, summ = judge_histories(d, "TPTiming", hist, pid, shards=2)
@@ -64,7 +70,7 @@ def run(pid, tier, seed):
                       "long_wait_scenarios": summ.get("upper", 0), "stalls_discarded": discarded},
                 violations=violations, known_hits=known_hits, drifts=0, mc_info=mc_info, samples=samples, exported=0,
                 modes="waits 1/5/20/50 ms x budgets 2..5 x failure sequences; 1.2 s wait (upper bounds); 1 h and 2 s waits cancelled 20 ms after attempt k", count=summ.get("scenarios", 0))
-    return fam_batch.finish(pid, tier, seed, d, t0, [("timing", part)])
+    return part
 
 
 def replay(bundle):
